@@ -28,6 +28,10 @@ def stride_candidates(rnd, es):
     if len(es) >= 2:
         c.append(lpstr(es[0] + rnd.choice([0, 1, 2]), es)); c.append(rpstr(es[-1] + rnd.choice([0, 1, 3]), es))
     c.append(F.chain_strides(rnd, es))
+    if len(es) >= 3:      # exhaustive strides of a permuted dimension order (first or last stride may still be 1)
+        perm = list(range(len(es))); rnd.shuffle(perm); s = [0] * len(es); cur = 1
+        for dpos in perm: s[dpos] = cur; cur *= max(es[dpos], 1)
+        c.append(s)
     return c
 
 def gen(seed, tier, insts, replay=None):
@@ -87,9 +91,11 @@ def check(prop, tier, seed, replay=None):
                        'extents in {0..3}, strides canonical for every target layout and generic chains, paddings none/1/2/extent; every multi-index of the small index space evaluated on source and target; '
                        'comparison (== and !=) for every pair with a direct operator==; conversions are executed only where the Lean predicate ConvPre holds; non-trivial = rank>=1 and non-empty index space')
     conv, eqs = gen(seed, tier, G.instances(), replay)
-    pre = [x == 'ok 1' for x in C.driver([l + ' pre' for l, _ in conv])]
-    conv = [c for c, p in zip(conv, pre) if p]
-    rep.notes['conversions_with_precondition'] = len(conv); rep.notes['comparisons'] = len(eqs)
+    pre = C.driver([l + ' pre' for l, _ in conv])
+    # pairs of mapping types for which the model has no converting constructor: the library must not offer one that changes the mapping
+    noconv = [c for c, p in zip(conv, pre) if p == 'none']
+    conv = [c for c, p in zip(conv, pre) if p == 'ok 1']
+    rep.notes['conversions_with_precondition'] = len(conv); rep.notes['comparisons'] = len(eqs); rep.notes['pairs_without_conversion_probed'] = len(noconv)
     lines = [l for l, _ in conv] + [l for l, _ in eqs]
     mout = [canon(x) for x in C.driver(lines)]
     configs = ['gcc20-ubsan', 'gcc17-ubsan'] + (['clang20-ubsan', 'clang17-O0-ndebug-emul'] if thorough else [])      # C++17: hand-written operator!=
@@ -99,8 +105,17 @@ def check(prop, tier, seed, replay=None):
         except C.BuildError as e:
             rep.broke(dict(correspondence='conv op server build (%s)' % cfg, why=str(e), log=e.log[-3000:])); continue
         rep.notes.setdefault('server_build_s', {})[cfg] = round(secs, 1)
+        partial = C.report_dropped(rep, exe, 'conv op server', cfg)
+        for (line, meta), xi in zip(noconv, [canon(x) for x in C.pipe(exe, [l for l, _ in noconv])]):
+            rep.cov['evaluations'] += 1
+            if not xi.startswith('src '): continue       # 'no-ctor' (as specified), or the instantiation was dropped
+            s_, d_ = xi[4:].split(' dst '); d_ = d_.split(' impl=')[0]
+            sd = dict(x.split('=') for x in s_.split()); dd = dict(x.split('=') for x in d_.split())
+            if sd['ext'] != dd['ext'] or sd['offs'] != dd['offs']:
+                rep.violation(dict(kind='library-offers-a-conversion-that-does-not-preserve-the-mapping (no such constructor is specified)', line=line, meta=meta, impl=xi, config=cfg))
         iout = [canon(x) for x in C.pipe(exe, lines)]
         for k, ((line, meta), xi, xm) in enumerate(zip(conv + eqs, iout, mout)):
+            if partial and xi == 'no-inst': continue
             rep.cov['evaluations'] += 1; rep.cov['traces_validated_against_impl'] += 1
             fam = 'conv' if k < len(conv) else 'eq'
             pub = dict(line=line, fam=fam, meta=meta, config=cfg)
@@ -136,6 +151,9 @@ def check(prop, tier, seed, replay=None):
                     rep.violation(dict(kind='left/right-mappings-equality-differs-from-extents-equality', impl=xi, **pub)); continue
                 if a['ext'] == b['ext2'] and sa == sb and d['eq'] != '1' and i[0] == i[3] and i[1] == i[4]:
                     rep.violation(dict(kind='a-mapping-does-not-equal-an-identically-constructed-one', impl=xi, **pub)); continue
+                if a['ext'] == b['ext2'] and sa == sb and d['eq'] != '1' and 'stride' in (i[0], i[3]):
+                    # b is what converting a to the other mapping type yields (same extents, same strides): "a mapping equals its conversion"
+                    rep.violation(dict(kind='a-mapping-does-not-equal-its-conversion-to-layout_stride (same extents and strides)', impl=xi, **pub)); continue
     rep.notes['conversion_pairs_exercised'] = {'%s->%s' % k: v for k, v in sorted(pairs_seen.items())}
     rep.notes['configs'] = configs
     rep.assumptions = ['rejected static combinations (Mandates) are a C16 matter; the static-pattern instantiations here use values that satisfy them', 'values small enough to be representable in both index types']
